@@ -3,7 +3,7 @@ C19 (serde / arbitrary wrappers), C16 (decoding constructors), C15 (non-numeric 
 mapping, bool/char constants)."""
 import re
 from facts import callee_name, strip_refs
-from guards import describe, guards_at, eval_int
+from guards import describe, guards_at, eval_int, inlined_calls, find_call
 
 # --- views of the text of an argument (B5 glue), normalised to TEXT(pN)
 TEXT_VIEWS = [
@@ -28,6 +28,11 @@ def ret_defs(b):
 
 
 STR_EQ = ("core::str::traits::<impl core::cmp::PartialEq for str>::eq",)
+# `a == b` on two &str desugars to the &A == &B blanket impl, which forwards to str's eq
+STR_EQ_ALL = STR_EQ + ("core::cmp::impls::<impl core::cmp::PartialEq<&B> for &A>::eq",)
+GLUE_CALLS = ("LeanString::as_str", "alloc::string::String::as_str", "<alloc::string::String as core::ops::deref::Deref>::deref",
+              "<alloc::borrow::Cow<'_, T> as core::convert::AsRef<T>>::as_ref", "<alloc::borrow::Cow<'_, B> as core::ops::deref::Deref>::deref",
+              "<LeanString as core::ops::deref::Deref>::deref", "repr::Repr::as_str")
 STR_CMP = ("core::str::traits::<impl core::cmp::Ord for str>::cmp",)
 STR_HASH = ("core::hash::impls::<impl core::hash::Hash for str>::hash",)
 
@@ -65,13 +70,22 @@ def rule_C17(ctx, rule="C17-deleg"):
                 other = targs[0]
                 a = "TEXT(p1)" if self_ty == "LeanString" else _raw_text("p1", self_ty)[0]
                 c = "TEXT(p2)" if other == "LeanString" else _raw_text("p2", other)[0]
-                want = ["%s(%s, %s)" % (f, a, c) for f in STR_EQ]
-                ob(len(ds) == 1 and ds[0] in want and len(calls) <= 3, "eq = <str as PartialEq>::eq(text(self), text(other))", "%s for %s: eq returns %s (calls %s): not a pure comparison of the two texts" % (tr, self_ty, ds, calls))
+                ok = False
+                if len(ds) == 1:
+                    m = re.match(r"^(%s)\((.*), (.*)\)$" % "|".join(re.escape(f) for f in STR_EQ_ALL), ds[0])
+                    if m:
+                        x, y = m.group(2).lstrip("&"), m.group(3).lstrip("&")
+                        okx = x == a or (a.startswith("*") and x == a[1:] and m.group(1) != STR_EQ[0])
+                        oky = y == c or (c.startswith("*") and y == c[1:] and m.group(1) != STR_EQ[0]) or (not c.startswith("TEXT") and y.lstrip("*") == c.lstrip("*"))
+                        okx = okx or (not a.startswith("TEXT") and x.lstrip("*") == a.lstrip("*"))
+                        ok = okx and oky
+                extra = [n for n in calls if n not in STR_EQ_ALL and n not in GLUE_CALLS]
+                ob(ok and not extra, "eq = str equality of text(self) and text(other)", "%s for %s: eq returns %s (calls %s): not a pure comparison of the two texts" % (tr, self_ty, ds, calls))
             elif tr == "core::cmp::PartialEq" and nm == "ne":
                 ob(False, "", "custom `ne` on %s" % self_ty)
             elif tr == "core::cmp::Ord" and nm == "cmp":
                 want = ["%s(TEXT(p1), TEXT(p2))" % f for f in STR_CMP]
-                ob(len(ds) == 1 and ds[0] in want and len(calls) <= 3, "cmp = <str as Ord>::cmp(text, text)", "Ord::cmp returns %s" % ds)
+                ob(len(ds) == 1 and ds[0] in want and not [n for n in calls if n not in STR_CMP and n not in GLUE_CALLS], "cmp = <str as Ord>::cmp(text, text)", "Ord::cmp returns %s" % ds)
             elif tr == "core::cmp::PartialOrd" and nm == "partial_cmp":
                 want = ["core::option::Option::Some{<LeanString as core::cmp::Ord>::cmp(p1, p2)}"] + ["core::option::Option::Some{%s(TEXT(p1), TEXT(p2))}" % f for f in STR_CMP] + ["core::str::traits::<impl core::cmp::PartialOrd for str>::partial_cmp(TEXT(p1), TEXT(p2))"]
                 ob(len(ds) == 1 and ds[0] in want, "partial_cmp = Some(cmp)", "partial_cmp returns %s" % ds)
@@ -80,13 +94,13 @@ def rule_C17(ctx, rule="C17-deleg"):
             elif tr == "core::hash::Hash" and nm == "hash":
                 # hash returns (): look at the calls instead
                 hc = [(bb, t) for bb, t in b.calls() if callee_name(t) in STR_HASH]
-                ok = len(hc) == 1 and norm(describe(b, b.origin_operand(hc[0][1]["args"][0]))) == "TEXT(p1)" and describe(b, b.origin_operand(hc[0][1]["args"][1])) == "p2" and len(calls) == 2
+                ok = len(hc) == 1 and norm(describe(b, b.origin_operand(hc[0][1]["args"][0]))) == "TEXT(p1)" and describe(b, b.origin_operand(hc[0][1]["args"][1])) == "p2" and not [n for n in calls if n not in STR_HASH and n not in GLUE_CALLS]
                 ob(ok, "hash = <str as Hash>::hash(text(self), state)", "Hash::hash calls %s" % calls)
             elif tr in ("core::fmt::Display", "core::fmt::Debug") and nm == "fmt":
                 want = "<str as %s>::fmt(TEXT(p1), p2)" % tr
-                ob(ds == [want] and len(calls) == 2, "fmt = <str as %s>::fmt(text(self), f)" % tr.rsplit("::", 1)[1], "%s::fmt returns %s (calls %s)" % (tr, ds, calls))
+                ob(ds == [want] and not [n for n in calls if n not in GLUE_CALLS and not n.endswith("::fmt")], "fmt = <str as %s>::fmt(text(self), f)" % tr.rsplit("::", 1)[1], "%s::fmt returns %s (calls %s)" % (tr, ds, calls))
             elif tr in ("core::ops::deref::Deref", "core::borrow::Borrow") or (tr == "core::convert::AsRef" and targs == ["str"]):
-                ob(ds == ["TEXT(p1)"] and len(calls) == 1, "%s = as_str(self)" % nm, "%s::%s returns %s" % (tr, nm, ds))
+                ob(ds == ["TEXT(p1)"] and not [n for n in calls if n not in GLUE_CALLS], "%s = as_str(self)" % nm, "%s::%s returns %s" % (tr, nm, ds))
             elif tr == "core::convert::AsRef" and targs == ["[u8]"]:
                 ob(ds == ["LeanString::as_bytes(p1)"] and len(calls) == 1, "as_ref = as_bytes(self)", "AsRef<[u8]> returns %s" % ds)
             elif tr == "core::convert::AsRef" and "OsStr" in targs[0]:
@@ -114,6 +128,40 @@ def rule_C17(ctx, rule="C17-deleg"):
     if b:
         ds = ret_defs(b)
         ctx.ob(rule, b.path, "view", ds == ["Eq(repr::Repr::len(p1), const:0)"], how="is_empty = (len() == 0)", detail="Repr::is_empty returns %s" % ds)
+
+
+FROMSTR = r"(?:<LeanString as core::convert::From<&str>>::from|core::convert::From::from)"
+FROMFN = r"fn:(?:<LeanString as core::convert::From<&str>>::from|core::convert::From::from::<LeanString, &'?\w* ?str>)"
+
+
+def mapped_result(b, ds, X, err_pat=None):
+    """the function returns X's Ok payload wrapped by LeanString::from, and X's error (or, with
+    err_pat, an error built as err_pat) otherwise — as a combinator chain, a match, or `?`.
+    X is a regex for the describe() of the fallible call."""
+    F = b.facts
+    if len(ds) == 1:
+        d = ds[0]
+        if err_pat is None and re.match(r"^core::result::Result::<T, E>::map\(%s, %s\)$" % (X, FROMFN), d):
+            return True, "map(from)"
+        m = re.match(r"^core::result::Result::<T, E>::map_err\(core::result::Result::<T, E>::map\(%s, %s\), (.*)::None\{.*\}\)$" % (X, FROMFN), d)
+        if m and err_pat is not None:
+            cb = F.bodies.get(m.group(1))
+            if cb and any(re.search(err_pat.replace("p2", r"(p\d|\*?&?\*?p\d\.\d)"), x) or re.search(err_pat.split("{")[0].replace("\\", "\\"), x) for x in ret_defs(cb)):
+                return True, "map(from).map_err(invalid_value)"
+            return False, "map_err closure does not build the expected error"
+        return False, "single definition is not map(from)"
+    oks = [d for d in ds if d.startswith("core::result::Result::Ok{")]
+    rest = [d for d in ds if d not in oks]
+    if len(oks) != 1 or not re.match(r"^core::result::Result::Ok\{%s\(ok\(%s\)\)\}$" % (FROMSTR, X), oks[0]):
+        return False, "Ok value is not from(ok(X))"
+    for d in rest:
+        if err_pat is None:
+            if not re.match(r"^err\(%s\)$" % X, d):
+                return False, "other exit is not X's error"
+        else:
+            if not (d.startswith("core::result::Result::Err{") and re.search(err_pat, d)):
+                return False, "error exit does not build the expected error"
+    return bool(rest), "match/?"
 
 
 # ----------------------------------------------------------------------------- C19
@@ -150,17 +198,15 @@ def rule_C19(ctx, rule="C19-deleg"):
                 b = F.bodies.get(items.get(m))
                 if b:
                     ds = ret_defs(b)
-                    ctx.ob(rule, b.path, m, ds == ["core::result::Result::Ok{<LeanString as core::convert::From<&str>>::from(p2)}"], how="Ok(LeanString::from(v))", detail="%s returns %s" % (m, ds))
+                    ctx.ob(rule, b.path, m, len(ds) == 1 and re.match(r"^core::result::Result::Ok\{%s\(p2\)\}$" % FROMSTR, ds[0]) is not None, how="Ok(LeanString::from(v))", detail="%s returns %s" % (m, ds))
             for m in ("visit_bytes", "visit_borrowed_bytes"):
                 b = F.bodies.get(items.get(m))
                 if b:
                     ds = sorted(ret_defs(b))
-                    want = sorted(["core::result::Result::Ok{<LeanString as core::convert::From<&str>>::from(v0(core::str::converts::from_utf8(p2)))}"])
-                    oks = [d for d in ds if d.startswith("core::result::Result::Ok{")]
-                    errs = [d for d in ds if d.startswith("core::result::Result::Err{")]
-                    ok = oks == want and len(errs) == 1 and re.search(r"de::Error::invalid_value\(serde(_core)?::de::Unexpected::Bytes\{p2\}", errs[0]) is not None
-                    ctx.ob(rule, b.path, m, ok, how="from_utf8(v): Ok -> LeanString::from(s), Err -> invalid_value(Unexpected::Bytes(v))", detail="%s returns %s" % (m, ds))
-                    names = [callee_name(t) for _, t in b.calls()]
+                    X = r"core::str::converts::from_utf8\(p2\)"
+                    ok, why = mapped_result(b, ds, X, err_pat=r"de::Error::invalid_value\(serde(_core)?::de::Unexpected::Bytes\{p2\}")
+                    ctx.ob(rule, b.path, m, ok, how="from_utf8(v): Ok -> LeanString::from(s), Err -> invalid_value(Unexpected::Bytes(v))", detail="%s returns %s (%s)" % (m, ds, why))
+                    names = [callee_name(t) for _, _, t in inlined_calls(b)]
                     bad = [n for n in names if "unchecked" in n or "lossy" in n]
                     ctx.ob(rule, b.path, m + ":validates", not bad and "core::str::converts::from_utf8" in names, how="validates with core::str::from_utf8", detail="%s uses %s" % (m, bad or names))
     if "arbitrary" in feats:
@@ -170,9 +216,10 @@ def rule_C19(ctx, rule="C19-deleg"):
                 b = F.bodies.get(i["items"].get(m))
                 ctx.ob(rule, "arbitrary::Arbitrary for LeanString", "has:" + m, b is not None, how="overrides " + m, detail="Arbitrary::%s not overridden" % m)
                 if b:
-                    ds = ret_defs(b)
-                    ok = len(ds) == 1 and re.match(r"^core::result::Result::<T, E>::map\(arbitrary::foreign::core::str::<impl arbitrary::Arbitrary<'a> for &'a str>::%s\(p1\), fn:(<LeanString as core::convert::From<&str>>::from|core::convert::From::from::<LeanString, &'?\w* ?str>)\)$" % m, ds[0]) is not None
-                    ctx.ob(rule, b.path, m, ok, how="<&str as Arbitrary>::%s(u).map(LeanString::from)" % m, detail="%s returns %s" % (m, ds))
+                    ds = sorted(ret_defs(b))
+                    X = r"arbitrary::foreign::core::str::<impl arbitrary::Arbitrary<'a> for &'a str>::%s\(p1\)" % m
+                    ok, why = mapped_result(b, ds, X)
+                    ctx.ob(rule, b.path, m, ok, how="<&str as Arbitrary>::%s(u).map(LeanString::from)" % m, detail="%s returns %s (%s)" % (m, ds, why))
             b = F.bodies.get(i["items"].get("size_hint"))
             if b:
                 ds = ret_defs(b)
@@ -191,11 +238,11 @@ def rule_C16(ctx, rule="C16-decode"):
     if b:
         ds = ret_defs(b)
         oks = [d for d in ds if d.startswith("core::result::Result::Ok{")]
-        ok = oks in (["core::result::Result::Ok{<LeanString as core::convert::From<&str>>::from(ok(core::str::converts::from_utf8(p1)))}"],)
+        ok = len(oks) == 1 and re.match(r"^core::result::Result::Ok\{%s\(ok\(core::str::converts::from_utf8\(p1\)\)\)\}$" % FROMSTR, oks[0]) is not None
         alt = ds == ["core::result::Result::<T, E>::map(alloc::string::String::from_utf8(p1), fn:<LeanString as core::convert::From<alloc::string::String>>::from)"]
         ctx.ob(rule, b.path, "Ok=from(validated text)", ok or alt, how="Ok(LeanString::from(core::str::from_utf8(buf)?))", detail="from_utf8 returns %s" % ds)
-        errs = [d for d in ds if "from_residual" in d.split("(")[0]]
-        ctx.ob(rule, b.path, "Err=utf8 error unchanged", alt or (len(errs) == 1 and "v1(" in errs[0] and "core::str::converts::from_utf8(p1)" in errs[0]) or (len(errs) == 1 and "from_utf8(p1)" in errs[0]), how="`?` propagates core's Utf8Error", detail="from_utf8 error path is %s" % errs)
+        errs = [d for d in ds if d.startswith("err(")]
+        ctx.ob(rule, b.path, "Err=utf8 error unchanged", alt or errs == ["err(core::str::converts::from_utf8(p1))"], how="core's Utf8Error is returned as is", detail="from_utf8 error path is %s" % [d for d in ds if d not in oks])
         names = [callee_name(t) for _, t in b.calls()]
         ctx.ob(rule, b.path, "no-unchecked", not any("unchecked" in n or "lossy" in n for n in names), how="no unchecked / lossy call", detail="from_utf8 calls %s" % names)
     _no_arith_on_input(ctx, rule, "LeanString::from_utf8")
@@ -212,7 +259,7 @@ def rule_C16(ctx, rule="C16-decode"):
             ok = len(ch) == 1 and describe(b, b.origin_operand(ch[0][1]["args"][0])) == "p1"
             ctx.ob(rule, b.path, "chunks(buf)", ok, how="iterates buf.utf8_chunks()", detail="from_utf8_lossy does not iterate utf8_chunks of the input (%s)" % names)
             ps = [(bb, t) for bb, t in b.calls() if callee_name(t) in ("LeanString::push_str", "LeanString::try_push_str")]
-            okp = len(ps) == 1 and re.match(r"^core::str::lossy::Utf8Chunk::<'\w+>::valid\(&v1\(<core::str::lossy::Utf8Chunks<'\w+> as core::iter::traits::iterator::Iterator>::next\(", describe(b, b.origin_operand(ps[0][1]["args"][1]))) is not None
+            okp = len(ps) == 1 and re.match(r"^core::str::lossy::Utf8Chunk::<'\w+>::valid\(&some\(<core::str::lossy::Utf8Chunks<'\w+> as core::iter::traits::iterator::Iterator>::next\(", describe(b, b.origin_operand(ps[0][1]["args"][1]))) is not None
             ctx.ob(rule, b.path, "push_str(chunk.valid())", okp, how="appends chunk.valid() of every chunk", detail="push_str operand is %s" % ([describe(b, b.origin_operand(t["args"][1])) for _, t in ps]))
             pc = [(bb, t) for bb, t in b.calls() if callee_name(t) in ("LeanString::push", "LeanString::try_push")]
             okc = False
@@ -245,16 +292,19 @@ def rule_C16(ctx, rule="C16-decode"):
         if len(pc) == 1:
             bb, t = pc[0]
             d = describe(b, b.origin_operand(t["args"][1]))
-            okp = re.match(r"^v0\(v1\(<core::char::decode::DecodeUtf16<.*> as core::iter::traits::iterator::Iterator>::next\(", d) is not None
+            okp = re.match(r"^ok\((core::result::Result::<T, E>::map_err\()?some\(<core::char::decode::DecodeUtf16<.*> as core::iter::traits::iterator::Iterator>::next\(", d) is not None
         ctx.ob(rule, b.path, "push(Ok(c))", okp, how="pushes every successfully decoded char unchanged", detail="push operand is %s" % [describe(b, b.origin_operand(t["args"][1])) for _, t in pc])
-        # Err(FromUtf16Error) on the first decoding error: an Err aggregate assigned under the Err arm of the decoded item
+        # Err(FromUtf16Error) on the first decoding error: an Err built under the Err arm of the decoded
+        # item, or `item.map_err(|_| FromUtf16Error)?`
         errb = [bb for bb, blk in enumerate(b.blocks) for s in blk["stmts"] if s["k"] == "assign" and s["lhs"]["l"] == 0 and s["rv"]["k"] == "aggregate" and s["rv"].get("variant_name") == "Err"]
         oke = False
         for bb in errb:
             gs = guards_at(b, bb)
             if any(g[0] == "cls" and g[2] == "Err" for g in gs):
                 oke = True
-        ctx.ob(rule, b.path, "first-error-wins", oke and len(errb) == 1, how="returns Err(FromUtf16Error) on the decoder's Err item", detail="Err return is not tied to the decoder's Err item (%d Err sites)" % len(errb))
+        rd = ret_defs(b)
+        via_q = [d for d in rd if re.match(r"^err\(core::result::Result::<T, E>::map_err\(some\(<core::char::decode::DecodeUtf16<.*> as core::iter::traits::iterator::Iterator>::next\(", d)]
+        ctx.ob(rule, b.path, "first-error-wins", (oke and len(errb) == 1) or (len(via_q) == 1 and not errb), how="returns Err(FromUtf16Error) on the decoder's Err item", detail="Err return is not tied to the decoder's Err item (%d Err sites, %s)" % (len(errb), [d for d in rd if d.startswith("err(")]))
         ctx.ob(rule, b.path, "no-lossy", not any("lossy" in n or "unwrap_or" in n for n in names), how="no lossy substitution in the strict constructor", detail="from_utf16 calls %s" % names)
     _no_arith_on_input(ctx, rule, "LeanString::from_utf16")
     # from_utf16_lossy
@@ -264,6 +314,7 @@ def rule_C16(ctx, rule="C16-decode"):
         ds = ret_defs(b)
         ok = len(ds) == 1 and re.match(r"^core::iter::traits::iterator::Iterator::collect\(core::iter::traits::iterator::Iterator::map\(core::char::methods::<impl char>::decode_utf16\(core::iter::traits::iterator::Iterator::copied\(core::slice::<impl \[T\]>::iter\(p1\)\)\), LeanString::from_utf16_lossy::\{closure#0\}::None\{\}\)\)$", ds[0]) is not None
         alt = len(ds) == 1 and "String::from_utf16_lossy(p1)" in ds[0]
+        ok = ok or (len(ds) == 1 and re.match(r"^<LeanString as core::iter::traits::collect::FromIterator<char>>::from_iter\(core::iter::traits::iterator::Iterator::map\(core::char::methods::<impl char>::decode_utf16\(core::iter::traits::iterator::Iterator::copied\(core::slice::<impl \[T\]>::iter\(p1\)\)\), LeanString::from_utf16_lossy::\{closure#0\}::None\{\}\)\)$", ds[0]) is not None)
         ctx.ob(rule, b.path, "decode.map(unwrap_or).collect", ok or alt, how="decode_utf16(buf.iter().copied()).map(closure).collect::<LeanString>()", detail="from_utf16_lossy returns %s" % ds)
         c = F.bodies.get("LeanString::from_utf16_lossy::{closure#0}")
         if c and not alt:
@@ -351,27 +402,30 @@ def rule_C15(ctx, rule="C15"):
     key = "<T as traits::ToLeanString>::try_to_lean_string"
     b = F.bodies.get(key)
     if b:
-        wf = [(bb, t) for bb, t in b.calls() if callee_name(t) == "core::fmt::Write::write_fmt"]
+        wf = [(hb, bb, t) for hb, bb, t in inlined_calls(b) if callee_name(t) == "core::fmt::Write::write_fmt"]
         ok = len(wf) == 1
         why = "%d write_fmt calls" % len(wf)
         if ok:
-            bb, t = wf[0]
-            recv = strip_refs(b.origin_operand(t["args"][0]))
+            hb, bb, t = wf[0]
+            recv = strip_refs(hb.origin_operand(t["args"][0]))
             while recv[0] in ("ref", "rawptr"):
                 recv = strip_refs(recv[2])
-            ok = recv[0] in ("mem", "local") and b.local_ty(recv[1]) == "LeanString"
-            why = "write_fmt into %s" % describe(b, recv)
-            cbs = [x.get("inst_def") for x in t.get("cb_impls", [])]
-            # the buffer starts empty
-            ds = [d for d in b.defs.get(recv[1], [])] if ok else []
+            ok = recv[0] in ("mem", "local") and hb.local_ty(recv[1]) == "LeanString"
+            why = "write_fmt into %s" % describe(hb, recv)
+            ds = [d for d in hb.defs.get(recv[1], [])] if ok else []
             init = [callee_name(x[2]) for x in ds if x[1] == "term"]
             ok = ok and init == ["LeanString::new"]
             why += " initialised by %s" % init
         ctx.ob(rule, key, "fallback=write!(LeanString::new(), \"{}\", self)", ok, how="generic arm formats into an empty LeanString through fmt::Write", detail="generic fallback: %s" % why)
-        # its error goes through From<fmt::Error>
-        fr = [callee_name(t) for _, t in b.calls() if "from_residual" in callee_name(t)]
-        inst = [t.get("inst") for _, t in b.calls() if "from_residual" in callee_name(t)]
-        ctx.ob(rule, key, "fallback-error", any("core::fmt::Error" in (x or "") for x in inst), how="`?` on write! converts fmt::Error with From (-> Fmt)", detail="no `?` conversion from fmt::Error in try_to_lean_string")
+        # its error becomes the Fmt variant (through `?` + From<fmt::Error>, or built directly)
+        inst = [t.get("inst") for _, _, t in inlined_calls(b) if "from_residual" in callee_name(t)]
+        direct = False
+        for hb, _, _ in inlined_calls(b):
+            for blk in hb.blocks:
+                for st in blk["stmts"]:
+                    if st["k"] == "assign" and st["rv"]["k"] == "aggregate" and st["rv"].get("adt") == "errors::to_lean_string_error::ToLeanStringError" and st["rv"].get("variant_name") == "Fmt":
+                        direct = True
+        ctx.ob(rule, key, "fallback-error", any("core::fmt::Error" in (x or "") for x in inst) or direct, how="a formatting error becomes ToLeanStringError::Fmt", detail="no conversion of fmt::Error into the Fmt variant in try_to_lean_string")
     # default method
     b = F.bodies.get("traits::ToLeanString::to_lean_string")
     if b:
